@@ -215,6 +215,11 @@ CONCRETE["bounded:cue_cosmetics"] = {
 }
 
 
+def _payload(inputs):
+    # `rem_lines`: that many 80-byte ASCII REM lines in front (the text layer decodes in chunks: what follows lies in a LATER chunk)
+    return b"".join(b"REM %04d %s\n" % (i, b"x" * 70) for i in range(inputs.get("rem_lines", 0))) + bytes(inputs["bytes"])
+
+
 def _build_not_cue(inputs):
     import os, sys, tempfile, shutil
     from smpl_extract.actions import determine_image_type, parse_text_file, BadTextFile, attempt_parse_cue_sheet
@@ -225,7 +230,7 @@ def _build_not_cue(inputs):
         try:
             p = os.path.join(d, "x.cue")
             with open(p, "wb") as f:
-                f.write(bytes(inputs["bytes"]))
+                f.write(_payload(inputs))
             with open(os.path.join(d, "img.bin"), "wb") as f:
                 f.write(bytes(2352 * 4))
             try:
@@ -257,7 +262,7 @@ def _oracle_not_cue(inputs, kind, val, env):
     if kind != "return":
         return ["oracle.no-exception-expected"]
     bad = []
-    data = bytes(inputs["bytes"])
+    data = _payload(inputs)
     ascii_ = all(b < 128 for b in data)
     if not ascii_ and val["is_text"]:
         bad.append("oracle.non-ascii-is-not-text")
@@ -288,6 +293,13 @@ def _small_not_cue(tier, seed, shard=(0, 1)):
     for k, (b, has_file, audio) in enumerate(cases):
         if k % shard[1] == shard[0]:
             yield {"bytes": list(b), "has_file_line": has_file, "all_audio": audio}
+    # the same behind 4 KiB / 8 KiB / 16 KiB / 80 KiB of 7-bit text: long sheets are sheets, a late non-ASCII byte still means "not text"
+    k = len(cases)
+    for n in (52, 103, 205, 1000):
+        for (b, has_file, audio) in (cases[0], cases[6], cases[8], (b'FILE "img.bin" BINARY\n  TRACK 01 AUDIO\n    INDEX 01 00:00:00\nREM \xe9\n', True, True)):
+            k += 1
+            if k % shard[1] == shard[0]:
+                yield {"bytes": list(b), "has_file_line": has_file, "all_audio": audio, "rem_lines": n}
 
 
 @contract("bounded:cue_or_not", props=["C17"], abstract=True)
@@ -297,7 +309,7 @@ def _bn(c):
 
 CONCRETE["bounded:cue_or_not"] = {
     "build": _build_not_cue, "small": _small_not_cue, "oracle": _oracle_not_cue,
-    "bound": "9 files: valid sheets (upper/lower case), text without a FILE line (4 forms incl. empty and unquoted FILE), and three non-ASCII files",
+    "bound": "the last three and a valid sheet again behind 4 / 8 / 16 / 80 KiB of REM lines; 9 files: valid sheets (upper/lower case), text without a FILE line (4 forms incl. empty and unquoted FILE), and three non-ASCII files",
     "timeout_s": 5.0,
 }
 
